@@ -1,4 +1,4 @@
-import GdVerif.Lemmas.Http
+import GdVerif.Lemmas.HttpIpv6
 /-
   C09 — requests go to the caller's address and port and name the right host: the HTTP client and the Eco query.
 
@@ -46,6 +46,35 @@ theorem C09_http_url_v4 (idna : Bytes → Option Bytes) (ua : Bytes) (a b c d : 
   simp only [Http.new, ipHostText]
   rw [show asciiBytes "//" ++ showIpv4 a b c d ++ [58] ++ natDec port = asciiBytes "//" ++ showIpv4 a b c d ++ [58] ++ natDec port from rfl, h]
   exact ⟨_, rfl, rfl, rfl⟩
+
+/-- NO HOST NAME GIVEN, IPv6: for every address (eight segments, whatever their values — all zero, loopback, IPv4-mapped,
+zero runs anywhere), port, protocol, headers and timeout settings the client is built and the host of its URL is that
+address: the text `Display for Ipv6Addr` prints (IPv4-mapped addresses in their dotted form, the longest zero run as `::`),
+put in brackets, is read back by the `url` crate's `parse_ipv6addr` as the same eight segments. -/
+theorem C09_http_url_v6 (idna : Bytes → Option Bytes) (ua : Bytes) (s0 s1 s2 s3 s4 s5 s6 s7 : UInt16) (port : Nat) (hp : port < 65536)
+    (ts : Option Settings.Timeout) (proto : Protocol) (headers : List (Bytes × Bytes)) :
+    ∃ client, Http.new idna ua ⟨.v6 s0 s1 s2 s3 s4 s5 s6 s7, port⟩ ts ⟨proto, none, headers⟩ = .ok client
+      ∧ client.address = ⟨proto, [], none, .ipv6 [s0.toNat, s1.toNat, s2.toNat, s3.toNat, s4.toNat, s5.toNat, s6.toNat, s7.toNat],
+          if port = proto.defaultPort then none else some port, [47], none, none⟩
+      ∧ client.headers = headers := by
+  have h := parseUrl_hostText idna proto (bracketed_hostText [s0, s1, s2, s3, s4, s5, s6, s7]) port hp
+  rw [parseHost_bracketed] at h
+  simp only [Http.new, ipHostText, IpAddr.segs]
+  rw [show asciiBytes "//" ++ ([91] ++ showIpv6 [s0, s1, s2, s3, s4, s5, s6, s7] ++ [93]) ++ [58] ++ natDec port
+      = asciiBytes "//" ++ (91 :: (showIpv6 [s0, s1, s2, s3, s4, s5, s6, s7] ++ [93])) ++ [58] ++ natDec port from rfl, h]
+  exact ⟨_, rfl, rfl, rfl⟩
+
+/-- THE `Host` HEADER, no name given, IPv6: the bracketed text the URL serialiser writes for the address, and `:port` unless
+the port is the scheme's default — and that bracketed text DENOTES the address: read as a host it is the same eight segments
+(the serialiser never uses the dotted form, `::ffff:127.0.0.1` is written `[::ffff:7f00:1]`). -/
+theorem C09_http_host_header_v6 (idna : Bytes → Option Bytes) (s0 s1 s2 s3 s4 s5 s6 s7 : UInt16) (port : Nat) (proto : Protocol) :
+    let host := Host.ipv6 [s0.toNat, s1.toNat, s2.toNat, s3.toNat, s4.toNat, s5.toNat, s6.toNat, s7.toNat]
+    Ureq.hostHeader ⟨proto, [], none, host, if port = proto.defaultPort then none else some port, [47], none, none⟩
+      = host.text ++ (if port = proto.defaultPort then [] else 58 :: natDec port)
+    ∧ parseHost idna host.text = some host := by
+  refine ⟨?_, parseHost_writeIpv6 idna s0 s1 s2 s3 s4 s5 s6 s7⟩
+  simp only [Ureq.hostHeader]
+  by_cases hpd : port = proto.defaultPort <;> simp [hpd]
 
 /-- A HOST NAME GIVEN: for every plain name (ASCII without the characters the deny list of domains holds, no Punycode
 label, not read as a number — `Lemmas/Http.lean: PlainName`), every address of either family, port, protocol, headers and
@@ -151,6 +180,33 @@ theorem C09_eco_request_v4 (idna : Bytes → Option Bytes) (ua : Bytes) (w : Wir
     simp only [Ureq.requestHead, Ureq.headerLines, hheaders, hh, hua]
     rw [hurl]
     simp [Ureq.hasHeader, Ureq.target, Client.makeRequest, GET, asciiBytes, asciiLower, inRange, List.flatMap_cons, List.append_assoc]
+
+/-- THE ECO QUERY, IPv6 address, no host name: the same request; the URL's host is the address, `Host` its bracketed text. -/
+theorem C09_eco_request_v6 (idna : Bytes → Option Bytes) (ua : Bytes) (w : Wire) (json : Bytes → Option Eco.Info)
+    (s0 s1 s2 s3 s4 s5 s6 s7 : UInt16) (port : Option Nat) (hp : port.getD Eco.DEFAULT_PORT < 65536) (ts : Option Settings.Timeout) :
+    ∃ client req, (Eco.query idna ua w json (.v6 s0 s1 s2 s3 s4 s5 s6 s7) port ts none).1 = some (client, req)
+      ∧ (∀ name, client.agent.resolver name = [⟨.v6 s0 s1 s2 s3 s4 s5 s6 s7, port.getD 3001⟩])
+      ∧ req.method = asciiBytes "GET" ∧ Ureq.target req.url = asciiBytes "/frontpage" ∧ req.headers = []
+      ∧ req.url.host = .ipv6 [s0.toNat, s1.toNat, s2.toNat, s3.toNat, s4.toNat, s5.toNat, s6.toNat, s7.toNat]
+      ∧ Ureq.hostHeader req.url = req.url.host.text ++ (if port.getD 3001 = 80 then [] else 58 :: natDec (port.getD 3001)) := by
+  obtain ⟨client, hnew, haddr, hhead⟩ := C09_http_url_v6 idna ua s0 s1 s2 s3 s4 s5 s6 s7 (port.getD Eco.DEFAULT_PORT) hp ts .http []
+  have hres := C09_http_connects_to_the_address idna ua _ ts _ client hnew
+  have hq : (Eco.query idna ua w json (.v6 s0 s1 s2 s3 s4 s5 s6 s7) port ts none).1 = some (client, client.makeRequest GET (asciiBytes Eco.PATH) []) := by
+    simp only [Eco.query, Option.getD_none, Eco.RequestSettings.toHttp]
+    rw [hnew]
+    simp only [requestJson_fst]
+  have hurl : (client.makeRequest GET (asciiBytes Eco.PATH) []).url
+      = ⟨.http, [], none, .ipv6 [s0.toNat, s1.toNat, s2.toNat, s3.toNat, s4.toNat, s5.toNat, s6.toNat, s7.toNat],
+          if port.getD Eco.DEFAULT_PORT = 80 then none else some (port.getD Eco.DEFAULT_PORT), asciiBytes "/frontpage", none, none⟩ := by
+    simp only [Client.makeRequest, Url.setPath, haddr]
+    congr 1
+  refine ⟨client, _, hq, hres, rfl, ?_, ?_, ?_, ?_⟩
+  · rw [hurl]; rfl
+  · simp [Client.makeRequest, hhead]
+  · rw [hurl]
+  · rw [hurl]
+    simp only [Ureq.hostHeader]
+    by_cases hpd : port.getD Eco.DEFAULT_PORT = 80 <;> simp [hpd, Eco.DEFAULT_PORT] <;> simp_all [Eco.DEFAULT_PORT]
 
 /-- THE ECO QUERY with a plain host name in the request settings, any address of either family: the same request, `Host` =
 that name (lower case) and the port; the connection still goes to the address (`C09_http_connects_to_the_address`). -/
